@@ -219,7 +219,7 @@ pub fn run(tier: Tier) -> i32 {
         Box::new(crate::families::sorted_run_family()),
         Box::new(crate::families::r8_metadata_family()),
         Box::new(crate::families::file_header_family()),
-        Box::new(crate::families::far_apart_family_level(if tier.thorough() { 2 } else { 1 })),
+        Box::new(crate::families::far_apart_family_level(1)),
         // names the format stores as "absent" (empty original method names / empty obfuscated method names / an empty
         // foreign class): outside C02's domain, but such files exist and both readers must read them alike
         Box::new(SeqSpace::new(
